@@ -66,7 +66,9 @@ theorem bad_content_length_outcome (fuel idx : Nat) (s : St) (bs : Bytes) (fin :
     let t := runLoop (fuel + 1) idx s bs fin script
     t.delivered = s.delivered ∧ t.statuses = s.statuses ++ [400] ∧ t.ending = .closed ∧
       t.out = s.out ++ printError 400 h.version false := by
-  simp [runLoop, hh, hf, St.emit, St.finish]
+  have hf' : framingFor h.version h.headers = .error .badContentLength :=
+    (framingFor_error_iff _ _ _).2 hf
+  simp [runLoop, hh, hf', St.emit, St.finish]
 
 example : (Conn.run b!"POST / HTTP/1.1\r\nContent-Length: 5x\r\n\r\nGET /smuggled HTTP/1.1\r\n\r\n" .eof
     (fun _ => ⟨0, 0, 1, .drop, false⟩)).statuses = [400] := by decide
